@@ -19,7 +19,9 @@ Scenarios == { s \in [u : Uppers, a : Addrs, p : Ports, z : Sizes, h : Hops, o :
 MustDeliver(s) == s.o \in {"inorder", "reverse", "dup-first", "swap-tail"}        \* orders the reassembler can track
 \* IPHC header scenarios (wire level: emit into a dirty buffer, parse with the same link-layer context, compare).  The
 \* interface cannot resolve neighbours with short link addresses, so the forms that depend on them are reached here.
-SrcClasses == {"unspec", "ll-from-ext", "ll-from-short", "ll-short-other", "ll-iid64", "global"}
+\* "ll10-ext": inside fe80::/10 but outside fe80::/64 (fe80:0:0:1::/64) with the interface identifier of the extended
+\* link-layer address -- no stateless form may drop its bits 10..64
+SrcClasses == {"unspec", "ll-from-ext", "ll-from-short", "ll-short-other", "ll-iid64", "ll10-ext", "global"}
 \* "mc-8f" / "mc-32f": link-local-scope groups with a small group id but non-zero flags or a scope the short forms cannot
 \* express (ff12::42, ff32::1:2:3 is not needed: one per short form): they must NOT be squeezed into the 8- / 32-bit forms
 DstClasses == (SrcClasses \ {"unspec"}) \cup {"mc-8", "mc-32", "mc-48", "mc-full", "mc-8f", "mc-32f"}
